@@ -113,6 +113,7 @@ type vfx02G struct {
 	state string
 	kind  string // sup | inst | reader | closer | harness | other (dumpers, goroutines that have not run yet)
 	line  int    // sup: source line of the frame of (*Recorder).run
+	busy  bool   // a component loop that is executing a harness callback
 }
 
 var (
@@ -144,12 +145,20 @@ func vfx02Parse(dump string) []vfx02G {
 		}
 		g := vfx02G{state: m[2], kind: "other"}
 		g.id, _ = strconv.Atoi(m[1])
-		if strings.Contains(blk, "vfx02") && !strings.Contains(blk, "recorder.(*Recorder).Close(") {
+		inHarness := strings.Contains(blk, "vfx02")
+		component := strings.Contains(blk, "recorder.(*Recorder).run(") ||
+			strings.Contains(blk, "recorder.(*recorderInstance).run(") ||
+			strings.Contains(blk, "stream.(*Reader).run(") ||
+			strings.Contains(blk, "recorder.(*Recorder).Close(")
+		if inHarness && !component {
 			// the harness's own goroutines (sampler, test function)
 			g.kind = "harness"
 			out = append(out, g)
 			continue
 		}
+		// a loop of the component that is inside a callback of the harness (waiting for the event log's
+		// mutex) is in the middle of a critical section, whatever its state says
+		g.busy = inHarness && !strings.Contains(blk, "recorder.(*Recorder).Close(")
 		for i, ln := range lines[1:] {
 			switch {
 			case strings.Contains(ln, "recorder.(*Recorder).run("):
@@ -406,7 +415,7 @@ func (w *vfx02World) vfx02Sampler() {
 			w.ev = append(w.ev, vfx02Ev{K: "peek", R: r})
 		}
 		w.mu.Unlock()
-		time.Sleep(50 * time.Microsecond)
+		time.Sleep(200 * time.Microsecond)
 	}
 }
 
@@ -495,7 +504,7 @@ type vfx02Obs struct {
 // settle waits for a quiescent point and returns what is observed there.
 func (w *vfx02World) settle() (vfx02Obs, error) {
 	deadline := time.Now().Add(30 * time.Second)
-	pause := 100 * time.Microsecond
+	pause := 50 * time.Microsecond
 	var stableSince time.Time
 	var lastKey string
 	for {
@@ -506,6 +515,7 @@ func (w *vfx02World) settle() (vfx02Obs, error) {
 		var key strings.Builder
 		stable := true
 		inPause := false
+		closerParked := false
 		for _, g := range gs {
 			if w.base[g.id] || g.kind == "harness" {
 				continue
@@ -523,14 +533,18 @@ func (w *vfx02World) settle() (vfx02Obs, error) {
 			case "reader":
 				o.g++
 			case "closer":
+				closerParked = vfx02Parked(g.state)
 			}
-			if !vfx02Parked(g.state) {
+			if !vfx02Parked(g.state) || g.busy {
 				stable = false
 			}
 		}
+		// Close is pending only if the goroutine that called it is seen parked INSIDE Close (it has closed
+		// r.terminate and waits for r.done); before that, or between its return and the closeret event,
+		// the run is not at rest
 		cs := w.closeState.Load()
 		o.cp = cs == 1
-		if cs == 2 {
+		if cs == 2 || (cs == 1 && !closerParked) {
 			stable = false
 		}
 		o.r = vfx02Readers(w.strm)
@@ -559,8 +573,13 @@ func (w *vfx02World) settle() (vfx02Obs, error) {
 			w.lastDump = dump
 			return o, fmt.Errorf("no quiescent point within 30 s (stable=%v inPause=%v)", stable, inPause)
 		}
+		if stable && !inPause {
+			// confirm with a second dump right away
+			runtime.Gosched()
+			continue
+		}
 		time.Sleep(pause)
-		if pause < 2*time.Millisecond {
+		if pause < time.Millisecond {
 			pause *= 2
 		}
 	}
